@@ -296,6 +296,35 @@ def postStatus (lik prior : Status) (dom : Geom) : Status :=
 /-- `MultipleLikelihoodPosterior.gradient`: `sum(density.gradient(x) for density in densities)` -/
 def multiStatus (parts : List Status) : Status := parts.foldl combine .value
 
+/-! ### the finite-difference configuration of a density as a state machine
+`Density.__init__` calls `disable_FD()`; `enable_FD(epsilon=1e-8)` sets `(_FD_enabled, _FD_epsilon) = (True, epsilon)`;
+`disable_FD()` sets `(False, None)`; `gradient` uses FD iff `FD_enabled`. -/
+
+inductive FDOp
+  | enable (eps : Option Rat)     -- `enable_FD(eps)`; `none` = called without argument (default 1e-8)
+  | disable                       -- `disable_FD()`
+  deriving Repr
+
+structure FDCfg where
+  enabled : Bool
+  eps : Option Rat
+  deriving Repr, DecidableEq
+
+def FDCfg.init : FDCfg := ⟨false, none⟩
+
+def fdDefaultEps : Rat := 1 / 100000000
+
+def fdApply (_c : FDCfg) : FDOp → FDCfg
+  | .enable (some e) => ⟨true, some e⟩
+  | .enable none => ⟨true, some fdDefaultEps⟩
+  | .disable => ⟨false, none⟩
+
+def fdRun (c : FDCfg) (ops : List FDOp) : FDCfg := ops.foldl fdApply c
+
+/-- what `gradient` does in a configuration: `none` = the closed form (or its refusal),
+    `some ε` = the forward difference with spacing `ε` -/
+def fdMode (c : FDCfg) : Option Rat := if c.enabled then c.eps else none
+
 /-- rows of the table in which the returned vector is claimed (and proved, see Props/C03) to be the
     derivative of the log-density for *all* parameter values -/
 def closedFormProved : Family → Bool
